@@ -789,7 +789,20 @@ def m_from_le_bytes(ip, c, a):
         return int.from_bytes(bytes(vals), 'little', signed=signed)
     if all(isinstance(b, ByteOf) for b in vals) and all(b.t is vals[0].t and b.i == k for k, b in enumerate(vals)):
         return vals[0].t
-    raise Unsupported("from_le_bytes of mixed bytes: %r" % (vals,))
+    # bytes of different origins (torn / overwritten record): recombine arithmetically
+    parts = []
+    for k, b in enumerate(vals):
+        if isinstance(b, int): t = str(b)
+        elif isinstance(b, ByteOf): t = ip.byte_term(b).s
+        elif isinstance(b, CharOf): t = "(str.to_code (str.at %s %d))" % (b.t.s, b.i)
+        elif isinstance(b, Term): t = b.s
+        else: raise Unsupported("from_le_bytes of %r" % (b,))
+        parts.append("(* %s %d)" % (t, 256 ** k))
+    u = "(+ %s)" % " ".join(parts)
+    if signed:
+        half = 256 ** n // 2
+        return ip.name_term(Term("(ite (>= %s %d) (- %s %d) %s)" % (u, half, u, 256 ** n, u), 'Int'), 'le')
+    return ip.name_term(Term(u, 'Int'), 'le')
 def m_try_branch(ip, c, a):
     r = a[0]
     if r.variant in ('Ok', 'Some'): return Agg('ControlFlow', 'Continue', [Cell(r.fields[0].v)])
@@ -1080,6 +1093,10 @@ def m_box_new_uninit(ip, c, a):
 def m_box_assume_init_into_vec(ip, c, a):
     mu = a[0].fields[0].v.fields[0].v.cell.v
     return Agg('Vec', None, [Cell(list(mu.fields[1].v.fields[0].v.fields[0].v))])
+def m_str_repeat(ip, c, a):
+    s = val_of_strlike(a[0])
+    if is_sym(s) or is_sym(a[1]): raise Unsupported('repeat of symbolic string')
+    return s * a[1]
 def m_chars(ip, c, a): return Agg('Chars', None, [Cell(val_of_strlike(a[0])), Cell(0)])
 def m_str_is_empty(ip, c, a):
     s = val_of_strlike(a[0])
@@ -1147,7 +1164,7 @@ def install12(ip):
         P(r'^<(Vec<.*>|\[.*\]) as Index(Mut)?<(std::ops::)?Range(From|To|Full)?(<usize>)?>>::index(_mut)?$', m_slice_index_range),
         P(r'impl \[.*\]>::first$', m_slice_first), P(r'impl \[.*\]>::get$', m_slice_get),
         P(r'^std::vec::from_elem$|^from_elem$', m_vec_from_elem), P(r'impl \[.*\]>::to_vec$', m_slice_to_vec), P(r'impl \[.*\]>::into_vec$|^<Vec<.*> as From<\[.*\]>>::from$', m_vec_from_array),
-        P(r'^Box::new$|^Box::<.*>::new$', m_box_new), P(r'^Box::new_uninit$', m_box_new_uninit), P(r'box_assume_init_into_vec_unsafe$', m_box_assume_init_into_vec), P(r'impl str>::chars$', m_chars), P(r'impl str>::is_empty$|^String::is_empty$', m_str_is_empty),
+        P(r'^Box::new$|^Box::<.*>::new$', m_box_new), P(r'^Box::new_uninit$', m_box_new_uninit), P(r'box_assume_init_into_vec_unsafe$', m_box_assume_init_into_vec), P(r'impl str>::chars$', m_chars), P(r'impl str>::repeat$', m_str_repeat), P(r'impl str>::is_empty$|^String::is_empty$', m_str_is_empty),
         P(r'^String::from_utf8$|^(core::str::|std::str::)?from_utf8$|converts::from_utf8$', m_string_from_utf8), P(r'impl str>::as_bytes$|^String::as_bytes$', m_as_bytes), P(r'^String::into_bytes$', m_into_bytes),
     ] + ip.pattern_models
 
